@@ -178,10 +178,15 @@ func c17Property(t *rapid.T) {
 					f.fail("%s invoked directly by %s modified the existing record %s:\n%s", name, role.name, sim.PrettyKey(k), sim.DescribeDiff(before, after, []string{k}, 1))
 				}
 			}
-			st.Class("role:"+role.name, 1)
-			if mustFail != "" {
-				st.Class("asserted-must-fail", 1)
+			ntKey := ""
+			if parsed {
+				ntKey = name + "/" + role.name + "/" + argsString(args) + fmt.Sprintf("/%v", audit)
 			}
+			cls := []string{"role:" + role.name}
+			if mustFail != "" {
+				cls = append(cls, "asserted-must-fail")
+			}
+			st.Case(ntKey, cls...)
 			if st.WantSample() && mi%37 == 3 && ri == 0 {
 				st.Sample(line)
 			}
@@ -193,8 +198,7 @@ func c17Property(t *rapid.T) {
 		ks = append(ks, k)
 	}
 	sortStrings(ks)
-	st.Case(strings.Join(ks, ",")+fmt.Sprintf("|%v|%d", audit, len(ops)), "full-sweep")
-	st.AddExtra("calls", len(methods)*len(roles))
+	st.AddExtra("full_sweeps", 1)
 	st.AddExtra("calls_that_passed_argument_parsing", len(ks))
 	st.AddExtra("methods", len(methods))
 }
